@@ -223,6 +223,50 @@ def effect_sites(prog, keys):
     return out
 
 
+RESOURCE = {'gsl_set_error_handler_off': 'the GSL error handler', 'gsl_set_error_handler': 'the GSL error handler',
+            'setenv': 'the environment', 'putenv': 'the environment', 'unsetenv': 'the environment',
+            'setlocale': 'the C locale', 'std::setlocale': 'the C locale', 'std::locale::global': 'the global C++ locale',
+            'srand': 'the C random seed', 'std::srand': 'the C random seed', 'signal': 'the signal dispositions',
+            'std::signal': 'the signal dispositions', 'std::set_terminate': 'the terminate handler',
+            'chdir': 'the working directory', 'umask': 'the file mode mask'}
+
+
+def held_mutexes(fn, site):
+    """identities (declaration ids) of the static-storage mutexes on which a std::lock_guard / unique_lock / scoped_lock is alive
+    at the call site (constructed earlier in the same or an enclosing block)"""
+    out = []
+
+    def scan(stmt, held):
+        k = stmt.get('k')
+        if k == 'Compound':
+            h = list(held)
+            for s in stmt['s']:
+                if s['k'] == 'Decl':
+                    for v in s['vars']:
+                        if any(t in v['ty'] for t in ('lock_guard', 'unique_lock', 'scoped_lock')) and 'init' in v:
+                            for a in v['init'].get('args', []):
+                                r = root_ref(a)
+                                if r is not None and r.get('dk') in ('global', 'static_local', 'static_member'):
+                                    h.append((r.get('id'), r.get('qn') or r.get('name')))
+                if _contains(s, site):
+                    if s['k'] in ('Compound', 'If', 'While', 'For', 'Do', 'Try', 'Switch', 'ForRange', 'Label'):
+                        for c in astu.children(s):
+                            if _contains(c, site) or c is site:
+                                scan(c, h)
+                                return
+                    out.extend(h)
+                    return
+            return
+        if _contains(stmt, site):
+            for c in astu.children(stmt):
+                if _contains(c, site) or c is site:
+                    scan(c, held)
+                    return
+            out.extend(held)
+    scan(fn['body'], [])
+    return out
+
+
 def lock_dominates(fn, site):
     """a std::lock_guard / std::unique_lock / scoped_lock on a static-storage mutex is constructed earlier in the same
     (or an enclosing) block as the call site"""
